@@ -81,8 +81,14 @@ def copyguard(run, fx):
         run.held('COPYGUARD', 'entry tests', fn.loc(rs[0]), 'out_size > in_size, in_size >= MINSRCSIZE, no pointer wrap')
 
 
+CONSTS = {'LASTLITERALS': '5', 'MINSRCSIZE': '13', 'MINMATCH': '4', 'MINCODA': '6'}      # verified by LZCONST
+
+
 def _norm(s):
-    return s.replace(' ', '').replace('(anonymousnamespace)::', '')
+    s = s.replace(' ', '').replace('(anonymousnamespace)::', '')
+    for k, v in CONSTS.items():
+        s = s.replace(k, v)
+    return s
 
 
 def _match(f, w):
